@@ -83,10 +83,29 @@ inductive Entry
   | parser           -- a parser-facing entry point fed with a malformed document (fuzz cases only)
   | loader           -- a file-based loader / `New*FromConfig` constructor over a configuration directory
                      -- holding an empty, cut, BOM-prefixed, ... file (sampled cases only)
+  | hostileStore     -- `ListSignatures` / `FetchSignatureBlob` / `notation.Verify` over a store whose descriptor at
+                     -- `site` CLAIMS `claimed` bytes (child process under an allocation budget); modelled:
+                     -- is the content of that descriptor asked for at all
   | concurrent       -- one shared object (verifier, trust store, plugin manager, document, cache,
                      -- repository, signer) used by `workers` goroutines at once, in a child process
                      -- (a runtime `fatal error` cannot be recovered; sampled cases only)
   deriving DecidableEq, Repr, FromJson, ToJson
+
+/-- which descriptor of a hostile store claims the size under test -/
+inductive Site
+  | none
+  | referrer      -- a referrer manifest descriptor announced by the store's predecessor list
+  | sigManifest   -- the signature manifest descriptor handed to `FetchSignatureBlob` (Referrers API / caller)
+  | sigBlob       -- the signature envelope descriptor inside an honest signature manifest
+  | config        -- the config descriptor inside an honest signature manifest (never read)
+  deriving DecidableEq, Repr, FromJson, ToJson
+
+/-- the size caps of registry/repository.go (`maxManifestSizeLimit`, `maxBlobSizeLimit`) -/
+def manifestCap : Int := 4 * 1024 * 1024
+def blobCap : Int := 32 * 1024 * 1024
+def capOf : Site → Int
+  | .sigBlob => blobCap
+  | _ => manifestCap
 
 structure Input where
   entry : Entry
@@ -97,6 +116,8 @@ structure Input where
   named : Bool := true    -- blob verification asks for its statement BY NAME (`TrustPolicyName` set); `false`:
                           -- empty name, the document's GLOBAL statement is looked up (a second lookup method)
   workers : Nat := 1      -- goroutines using the one object under test at the same time (1 = sequential)
+  site : Site := .none    -- hostile-store cases: the descriptor that lies about its size
+  claimed : Int := 0      -- ... and the size it claims (any int64, negative included)
   fuzz : Bool             -- malformed-input / configuration-sweep case (sampled, not modelled)
   label : String          -- what the sampled case is (configuration, stream); ignored by the model
   data : String           -- hex of the bytes offered to the entry point (sampled cases); ignored by the model
@@ -111,6 +132,7 @@ structure Obs where
   panicked : Bool
   err : Bool
   outcome : Option Outcome
+  fetched : Bool := false -- hostile-store cases: the store was asked for the content of the lying descriptor
   consistent : Bool       -- no error => outcome without error (verifier level: failure after
                           -- policy selection => outcome with its error set); computed by the harness
   deriving DecidableEq, Repr, FromJson, ToJson
@@ -208,6 +230,16 @@ def vVerifyBlobGenError (g : Guards) (i : Input) : Obs :=
   let o := vVerifyBlob g i
   if !o.panicked && !o.err && o.outcome == some { hasError := false, hasContent := true } then failWith true else o
 
+/-- the descriptor's claimed size is within the cap that applies to it -/
+def withinCap (i : Input) : Bool := decide (i.claimed ≤ capOf i.site)
+
+/-- hostile store: the only test in front of every `content.FetchAll` is `size > cap` (a negative
+claim passes it and is refused by the reader without allocating); a config is never read. The
+error of the call is not observed (it depends on what the store then delivers). -/
+def hostile (i : Input) : Obs :=
+  { panicked := false, err := false, outcome := none, consistent := true,
+    fetched := i.site != .none && i.site != .config && withinCap i }
+
 def runWith (g : Guards) (i : Input) : Obs :=
   if i.fuzz then { panicked := false, err := false, outcome := none, consistent := true }
   else match i.entry with
@@ -220,6 +252,7 @@ def runWith (g : Guards) (i : Input) : Obs :=
     | .userMetadata => userMetadata g i
     | .nilArgs => nilArgs g
     | .parser => { panicked := false, err := false, outcome := none, consistent := true }
+    | .hostileStore => hostile i
     | .loader => { panicked := false, err := false, outcome := none, consistent := true }
     | .concurrent => { panicked := false, err := false, outcome := none, consistent := true }
 
@@ -240,10 +273,11 @@ def clauses (i : Input) (o : Obs) : Clauses :=
     ("pair_consistent_as_observed", o.consistent),
     ("no_error_means_outcome_without_error",
       i.fuzz || i.entry == .skipVerify || i.entry == .userMetadata || i.entry == .parser || i.entry == .loader ||
-        i.entry == .concurrent || o.err ||
+        i.entry == .concurrent || i.entry == .hostileStore || o.err ||
         match o.outcome with
         | some oc => !oc.hasError
         | none => false),
+    ("no_content_read_beyond_its_size_cap", !o.fetched || withinCap i),
     ("failure_after_policy_selection_has_outcome_with_error",
       i.fuzz || !(policySelected i && o.err) ||
         match o.outcome with
